@@ -141,6 +141,8 @@ Proof. intro H. induction l; cbn; auto. now rewrite H, IHl. Qed.
 
 Definition barrier (t : ty) : bool :=
   match t with TUnion _ | TLit _ | TTyped _ _ _ => true | _ => false end.
+Definition helper_ty (t : ty) : bool :=
+  match t with TUnion _ | TLit _ | TTyped _ _ _ | TNamed _ _ | TData _ => true | _ => false end.
 
 Lemma try_each_err fs v k e :
   try_each fs v k = Err e -> (is_marker e = true) \/ k = Err e.
@@ -202,15 +204,14 @@ Section Attr.
 
   Section Step.
     Variable rec : ty -> pv -> result pv.
-    Variable lrec : cid -> pv -> option attribution.
-    Variable srec : cid -> pv -> bool.
-    Hypothesis Hbar : forall t v e, barrier t = true -> rec t v = Err e ->
-                                    is_marker e = true \/ exists le, e = XLib le /\ unattr le.
-    Hypothesis Hdata : forall c v e, rec (TData c) v = Err e ->
-      dc_shape srec (TData c) v = true -> outcome e (lrec c v).
+    Variable hrec : ty -> pv -> option attribution.
+    Variable srec : ty -> pv -> bool.
+    (* a helper-compiled position, loaded with the smaller budget *)
+    Hypothesis Hhelp : forall t v e, helper_ty t = true -> c14_ty t = true -> rec t v = Err e ->
+      dc_shape srec t v = true -> outcome e (hrec t v).
     Local Notation ld := (load_r Or rec).
-    Local Notation loc := (locate_ty Or rec lrec).
-    Local Notation locs := (locate_elems Or rec lrec).
+    Local Notation loc := (locate_ty Or rec hrec).
+    Local Notation locs := (locate_elems Or rec hrec).
     Local Notation shp := (dc_shape srec).
 
     Lemma load_r_err_both :
@@ -283,18 +284,12 @@ Section Attr.
         intros t IH Hc o v e Hs H. cbn in Hc, Hs, H. cbn [locate_ty].
         destruct (is_none v); [discriminate|]. eapply IH; eauto.
       - (* union *)
-        intros ts _ _ o v e _ H. cbn in H. cbn [locate_ty].
-        destruct (Hbar (TUnion ts) v e eq_refl H) as [Hm|(le & -> & Hu)]; [now left|].
-        right. right. eauto.
-      - intros vs _ o v e _ H. cbn in H. cbn [locate_ty].
-        destruct (Hbar (TLit vs) v e eq_refl H) as [Hm|(le & -> & Hu)]; [now left|].
-        right. right. eauto.
-      - intros n fs _ Hc. discriminate.
-      - intros n r _ o0 _ _ o v e _ H. cbn in H. cbn [locate_ty].
-        destruct (Hbar (TTyped n r o0) v e eq_refl H) as [Hm|(le & -> & Hu)]; [now left|].
-        right. right. eauto.
+        intros ts _ Hc o v e Hs H. cbn in H. cbn [locate_ty]. now apply Hhelp.
+      - intros vs Hc o v e Hs H. cbn in H. cbn [locate_ty]. now apply Hhelp.
+      - intros n fs _ Hc o v e Hs H. cbn in H. cbn [locate_ty]. now apply Hhelp.
+      - intros n r _ o0 _ Hc o v e Hs H. cbn in H. cbn [locate_ty]. now apply Hhelp.
       - (* data *)
-        intros c _ o v e Hs H. cbn in H. cbn [locate_ty]. now apply Hdata.
+        intros c Hc o v e Hs H. cbn in H. cbn [locate_ty]. now apply Hhelp.
       - intros _ k v e _ H. discriminate.
       - (* cons *)
         intros lbl t IHt r IHr Hc k v e Hs H. cbn in Hc, Hs. apply andb_true_iff in Hc as [Hc1 Hc2].
@@ -325,11 +320,11 @@ Section Attr.
       forallb (fun f => c14_ty (f_ty f)) fs = true ->
       forallb (fun f => match first_key kvs (f_keys f) with Some v => shp (f_ty f) v | None => true end) fs = true ->
       match fields_load cn o kvs (combine fs (map (fun f => load_ty Or rec (f_ty f)) fs)) with
-      | Err e => outcome e (locate_fields Or rec lrec cn kvs fs missing) /\
-                 locate_fields Or rec lrec cn kvs fs missing <> None
+      | Err e => outcome e (locate_fields Or rec hrec cn kvs fs missing) /\
+                 locate_fields Or rec hrec cn kvs fs missing <> None
       | Ok xs =>
           List.length xs = List.length fs /\
-          locate_fields Or rec lrec cn kvs fs missing =
+          locate_fields Or rec hrec cn kvs fs missing =
           if missing || negb (forallb (fun fx => match snd fx, f_default (fst fx) with None, None => false | _, _ => true end)
                                       (combine fs xs))
           then Some (cn, None) else None
@@ -354,26 +349,62 @@ Section Attr.
             destruct (f_default f); cbn; rewrite ?orb_false_r, ?orb_true_r; auto.
           * exact IH.
     Qed.
+
+    (* the error a NamedTuple helper raises for the first failing field's error e0 *)
+    Definition nt_conv (n : pstr) (v : pv) (names : list pstr) (e0 : exn) : exn :=
+      match e0 with
+      | XBare k =>
+          if pstr_eqb k (S "IndexError") then XLib (mk_missing_fields n v names)
+          else if pstr_eqb k (S "KeyError") && is_dict v then XBare (S "TypeError")
+          else e0
+      | _ => e0
+      end.
+
+    Lemma named_attr n fs : forall k v xs e0,
+      c14_tys fs = true -> dc_shape_l srec fs k v = true ->
+      seq_load (map snd (list_loaders Or rec MElem false fs k)) v = (xs, Some e0) ->
+      forall names, outcome (nt_conv n v names e0) (locate_named Or rec hrec n fs k v).
+    Proof.
+      induction fs as [|lbl t r IH]; intros k v xs e0 Hc Hs H names; [discriminate|].
+      cbn in Hc, Hs. apply andb_true_iff in Hc as [Hc1 Hc2]. apply andb_true_iff in Hs as [Hs1 Hs2].
+      cbn [list_loaders map snd seq_load opt_at pos_read] in H. cbn [locate_named].
+      destruct (ld t false (py_index v (IxN k))) as [x|e] eqn:El.
+      - destruct (seq_load _ v) as [xs' e'] eqn:Es. inversion H; subst. eapply IH; eauto.
+      - inversion H; subst; clear H.
+        assert (Hinner : outcome e0 (match py_index v (IxN k) with Ok x => loc t x | Err _ => None end)).
+        { destruct (py_index v (IxN k)) as [x|x0] eqn:Ei.
+          - exact (proj1 attr_both t Hc1 false x e0 Hs1 El).
+          - apply (proj1 load_r_err_both) in El. subst. apply outcome_notlib; auto. eapply py_index_err; eauto. }
+        destruct e0 as [s| | |]; cbn [nt_conv]; try exact Hinner.
+        destruct (pstr_eqb s (S "IndexError")).
+        + right. right. eexists. split; [reflexivity|]. split; reflexivity.
+        + destruct (pstr_eqb s (S "KeyError") && is_dict v).
+          * apply outcome_bare. reflexivity.
+          * exact Hinner.
+    Qed.
   End Step.
 
   (* ---- all budgets -------------------------------------------------------------------- *)
   Hypothesis Hct : c14_ct ct = true.
 
-  Lemma bar_n n t v e : barrier t = true -> load_n Or ct n t v = Err e ->
-    is_marker e = true \/ exists le, e = XLib le /\ unattr le.
-  Proof.
-    destruct n as [|m]; cbn; intros Hb H.
-    - inversion H; subst. now left.
-    - eapply barrier_outcome; eauto.
-  Qed.
-
   Lemma unattr_missing_data : unattr mk_missing_data.
   Proof. repeat split. Qed.
 
+  Lemma named_skel_conv n fs v e :
+    named_skel n fs v = Err e ->
+    exists xs e0 names, seq_load (map snd fs) v = (xs, Some e0) /\ e = nt_conv n v names e0.
+  Proof.
+    unfold named_skel. destruct (seq_load (map snd fs) v) as [xs [e0|]] eqn:E; [|discriminate].
+    intro H. exists xs, e0, (map fst (skipn (List.length xs) fs)). split; auto.
+    unfold nt_conv. destruct e0; try (inversion H; reflexivity).
+    destruct (pstr_eqb k (S "IndexError")); [inversion H; reflexivity|].
+    destruct (pstr_eqb k (S "KeyError") && is_dict v); inversion H; reflexivity.
+  Qed.
+
   (* one class, given the statement for the smaller budget *)
   Lemma cls_attr m :
-    (forall c v e, load_n Or ct m (TData c) v = Err e ->
-                   dc_shape (dc_shape_n ct m) (TData c) v = true -> outcome e (locate_n Or ct m c v)) ->
+    (forall t v e, helper_ty t = true -> c14_ty t = true -> load_n Or ct m t v = Err e ->
+                   dc_shape (dc_shape_hn ct m) t v = true -> outcome e (locate_hn Or ct m t v)) ->
     forall c cd dd kvs e, nth_error ct c = Some cd ->
       load_n Or ct (Datatypes.S m) (TData c) (VDict dd kvs) = Err e ->
       dc_shape_n ct (Datatypes.S m) c (VDict dd kvs) = true ->
@@ -381,11 +412,12 @@ Section Attr.
       locate_n Or ct (Datatypes.S m) c (VDict dd kvs) <> None.
   Proof.
     intros IH c cd dd kvs e En H Hs. cbn [load_n load_helper] in H. rewrite En in H.
-    cbn [locate_n dc_shape_n] in *. rewrite En in *. unfold class_skel in H.
+    unfold locate_n, dc_shape_n in *. cbn [locate_hn locate_helper dc_shape_hn shape_helper] in *. rewrite En in *.
+    unfold class_skel in H.
     destruct (c_fields cd) as [|f0 rest] eqn:Ef; [discriminate|]. rewrite <- Ef in *.
     assert (Hc : forallb (fun f => c14_ty (f_ty f)) (c_fields cd) = true).
     { unfold c14_ct in Hct. rewrite forallb_forall in Hct. apply Hct. eapply nth_error_In; eauto. }
-    pose proof (fields_attr (load_n Or ct m) (locate_n Or ct m) (dc_shape_n ct m) (bar_n m) IH
+    pose proof (fields_attr (load_n Or ct m) (locate_hn Or ct m) (dc_shape_hn ct m) IH
                   (c_name cd) (VDict dd kvs) kvs eq_refl (c_fields cd) false Hc Hs) as X.
     destruct (fields_load _ _ _ _) as [xs|e0] eqn:Ef2.
     - destruct X as [Hl Hloc]. pose proof (construct_missing (c_fields cd) xs Hl) as Hm.
@@ -399,20 +431,33 @@ Section Attr.
     - inversion H; subst. exact X.
   Qed.
 
-  Lemma data_n : forall n c v e, load_n Or ct n (TData c) v = Err e ->
-    dc_shape (dc_shape_n ct n) (TData c) v = true -> outcome e (locate_n Or ct n c v).
+  Lemma help_n : forall n t v e, helper_ty t = true -> c14_ty t = true -> load_n Or ct n t v = Err e ->
+    dc_shape (dc_shape_hn ct n) t v = true -> outcome e (locate_hn Or ct n t v).
   Proof.
-    induction n as [|m IH]; intros c v e H Hs.
+    induction n as [|m IH]; intros t v e Hh Hc H Hs.
     - cbn in H. inversion H; subst. now left.
-    - destruct (nth_error ct c) as [cd|] eqn:En.
-      + cbn in Hs. apply orb_true_iff in Hs as [Hs|Hs].
-        * destruct v; try discriminate. cbn [load_n load_helper] in H. rewrite En in H.
-          unfold class_skel in H. destruct (c_fields cd); [discriminate|]. inversion H; subst.
-          cbn. right. right. eexists. split; [reflexivity|]. apply unattr_missing_data.
-        * apply andb_true_iff in Hs as [Hs1 Hs2]. destruct v; try discriminate.
-          apply (cls_attr m IH c cd dd kvs e En H Hs2).
-      + cbn [load_n load_helper] in H. rewrite En in H. inversion H; subst.
-        apply outcome_bare. cbn. destruct v; auto. now rewrite En.
+    - destruct t; try discriminate.
+      + (* union *)
+        destruct (barrier_outcome Or ct (load_n Or ct m) (TUnion ts) v e eq_refl H) as [Hm|(le & -> & Hu)]; [now left|].
+        right. right. eauto.
+      + destruct (barrier_outcome Or ct (load_n Or ct m) (TLit vs) v e eq_refl H) as [Hm|(le & -> & Hu)]; [now left|].
+        right. right. eauto.
+      + (* named *)
+        cbn [load_n load_helper] in H. cbn in Hs, Hc. cbn [locate_hn locate_helper].
+        destruct (named_skel_conv _ _ _ _ H) as (xs & e0 & names & Hseq & ->).
+        exact (named_attr (load_n Or ct m) (locate_hn Or ct m) (dc_shape_hn ct m) IH n fs 0 v xs e0 Hc Hs Hseq names).
+      + destruct (barrier_outcome Or ct (load_n Or ct m) (TTyped n req opt) v e eq_refl H) as [Hm|(le & -> & Hu)]; [now left|].
+        right. right. eauto.
+      + (* data *)
+        destruct (nth_error ct c) as [cd|] eqn:En.
+        * cbn [dc_shape] in Hs. apply orb_true_iff in Hs as [Hs|Hs].
+          -- destruct v; try discriminate. cbn [load_n load_helper] in H. rewrite En in H.
+             unfold class_skel in H. destruct (c_fields cd); [discriminate|]. inversion H; subst.
+             cbn. right. right. eexists. split; [reflexivity|]. apply unattr_missing_data.
+          -- apply andb_true_iff in Hs as [Hs1 Hs2]. destruct v; try discriminate.
+             apply (cls_attr m IH c cd dd kvs e En H Hs2).
+        * cbn [load_n load_helper] in H. rewrite En in H. inversion H; subst.
+          apply outcome_bare. cbn. destruct v; auto. now rewrite En.
   Qed.
 
   (* C14_innermost: a dict-shaped document *)
@@ -429,7 +474,7 @@ Section Attr.
     - cbn in H. inversion H; subst. now left.
     - destruct (nth_error ct c) as [cd|] eqn:En.
       2:{ apply nth_error_None in En. lia. }
-      destruct (cls_attr m (data_n m) c cd dd kvs e En H Hs) as [Ho Hn].
+      destruct (cls_attr m (help_n m) c cd dd kvs e En H Hs) as [Ho Hn].
       destruct Ho as [Hm|[(H1 & H2 & H3)|(le & -> & Ha)]]; [now left|congruence|].
       destruct (locate_n Or ct (Datatypes.S m) c (VDict dd kvs)) as [a|]; [|congruence].
       right. exists le, a. split; auto. split; auto. destruct Ha as [Hcl Hf].
